@@ -27,20 +27,36 @@ NOTES = ("Exit codes of bin/check: 0 held, 1 violation (replayed natively), 2 in
          "encoding failed, non-reproducing counterexample) - an inconclusive run is never reported as success. "
          "Scratch copies live under /var/tmp/ggrs-verif.<pid> and are removed on exit.")
 
+import os, re
+_HDIR = os.path.join(os.path.dirname(os.path.dirname(os.path.abspath(__file__))), "harness")
+
+def names_in(fname, rx=".*"):
+    """All harness names defined in a harness file (direct #[kani::proof] fns and macro instances) matching rx."""
+    txt = open(os.path.join(_HDIR, fname)).read()
+    names = re.findall(r"#\[kani::proof\][^\n]*\n(?:\s*#\[[^\n]*\n)*\s*fn\s+(\w+)", txt)
+    names += [m.group(1) for m in re.finditer(r"^\s*\w+!\(\s*(\w+)\s*,", txt, re.M)]
+    return [n for n in names if re.fullmatch(rx, n)]
+
+BUILDS["codec"] = {"files": ["network__compression.rs"], "consts": {}}
+BUILDS["codec_more"] = {"files": ["network__compression@more.rs"], "consts": {}}
+
+K_QUICK = ([H("k_len_prefix_u16", "codec", mem=4)]
+           + [H(n, "codec", mem=4) for n in names_in("network__compression.rs", "k_delta_roundtrip_.*")]
+           + [H(n, "codec", mem=4) for n in names_in("network__compression.rs", "k_delta_total_.*")]
+           + [H(n, "codec", timeout=600, mem=8) for n in names_in("network__compression.rs", "k_rle_stage_total_len[123]")]
+           + [H(n, "codec", timeout=600, mem=8) for n in names_in("network__compression.rs", "k_rle_guard_len[1-5]")])
+K_THOROUGH = ([H(n, "codec_more", tier="thorough", mem=4) for n in names_in("network__compression@more.rs")]
+              + [H("k_rle_guard_len6", "codec", tier="thorough", timeout=900, mem=8),
+                 H("k_rle_roundtrip_len1", "codec", tier="thorough", timeout=1200, mem=16),
+                 H("k_rle_roundtrip_len2", "codec", tier="thorough", timeout=2400, mem=24)])
+
 PROPERTIES["C14"] = {
     "level": "model_checking",
-    "harnesses": [
-        H("k_len_prefix_u16", "codec"),
-        H("k_delta_roundtrip_r1_a1_b1", "codec"),
-        H("k_delta_roundtrip_r1_a2_b0", "codec"),
-        H("k_delta_roundtrip_r2_a1_b2", "codec"),
-        H("k_delta_roundtrip_r0_a2_b1", "codec"),
-        H("k_delta_roundtrip_r2_a0_b2", "codec"),
-        H("k_delta_roundtrip_r3_a3_b3", "codec"),
-    ],
-    "claim": "bounded model checking of the real codec functions: round trip of the delta layer for every byte value at every enumerated length shape, faithfulness of the u16 length prefix",
-    "note": "bitfield-rle/varinteger are the real crates; lengths are enumerated shapes up to the stated bound, byte values symbolic",
-    "bounds": {},
-    "outside": [],
-    "assumptions": [],
+    "harnesses": K_QUICK + K_THOROUGH,
+    "claim": "Solver-decided (Kani/CBMC) on the real codec code, stage-wise: (1) delta layer round trip delta_decode(r, delta_encode(r, xs)) == xs for every byte value at every enumerated length shape (reference 0..3 bytes, two inputs of 0..3 bytes); (2) delta stage totality and exactness on every length shape of total size <= 5 (quick) / 7 (thorough) bytes incl. truncated prefixes and over-long length claims, all payload bytes symbolic, with re-encoding equal to the input; (3) the real decode()'s RLE stage on every byte string of <= 3 bytes (no panic/overflow/OOB, malformed rejected); (4) the guard in front of bitfield_rle::decode on every byte string of <= 5 (6) bytes: malformed or oversized (> 4x legitimate maximum) streams never reach the allocator; (5) u16 length prefix faithful for all lengths <= 65535; thorough adds the real bitfield-rle encode/decode round trip for every buffer of 1..2 bytes.",
+    "note": "bitfield-rle/varinteger are the real crates from the cargo cache; lengths are enumerated shapes up to the stated bound while all byte values are symbolic; stage (3) assumes the well-formed reading decodes to <= 4 bytes (loop bound); the composition encode->decode through the real RLE crate for symbolic content is outside the quick claim (CBMC runs out of memory on symbolic-length heap copies) and rests on stages (1)+(thorough RLE round trip)",
+    "bounds": {"delta round trip": "reference <= 3 bytes, 2 inputs <= 3 bytes each (6 shapes)", "delta totality": "all shapes with total size <= 5 (quick) / <= 7 (thorough)",
+               "rle stage": "data <= 3 bytes, decoded size <= 4", "rle guard": "data <= 5 bytes (6 thorough)", "unwind": "per harness, with unwinding assertions"},
+    "outside": ["inputs longer than 3 bytes in round trips", "whole encode->RLE->decode chain with symbolic content (memory)", "RLE round trip beyond 2 bytes"],
+    "assumptions": ["k_rle_stage_total_*: delta stage stubbed (decided separately)", "k_rle_guard_*: bitfield_rle::decode and delta stage stubbed (only the guard is exercised)"],
 }
